@@ -609,7 +609,7 @@ def jobs(tier):
     J.append(("job_shift", dict(shape=SHAPES[6], offs=[("-", "H")], utc=True, ranges=pins_for("i"))))
     W = {"aMM0": (0, 0), "aMM1": (1, 2), "bMM0": (0, 0), "bMM1": (1, 3)}
     for s1, s2 in (((SHAPES[0], SHAPES[0]), (SHAPES[4], SHAPES[0])) if not th else
-                   ((SHAPES[0], SHAPES[0]), (SHAPES[4], SHAPES[0]), (SHAPES[1], SHAPES[2]), (SHAPES[2], SHAPES[0]))):
+                   ((SHAPES[0], SHAPES[0]), (SHAPES[4], SHAPES[0]), (SHAPES[2], SHAPES[0]))):      # (basic +hhmm, ordinal): > 15 min per job
         rg = {k: v for k, v in W.items() if ("MM" in s1[0] and k.startswith("a")) or ("MM" in s2[0] and k.startswith("b"))}
         if "DDD" in s1[0]:
             rg.update({"aDDD0": (0, 0), "aDDD1": (5, 6)})
